@@ -17,6 +17,10 @@ import (
 func gen(r *hx.Rand, n int, tier string, prop string, out *hx.Out) {
 	// fixed regression shapes first
 	fixed(out)
+	out.P("#case probe-unset-status")
+	out.P("probe unset")
+	out.P("#case probe-refresher-vs-open-transaction")
+	out.P("probe refresh")
 	// the backoff computation on bounds and attempt counts no run reaches: seconds to hours, up to 70 attempts
 	{
 		g := r.Fork()
